@@ -5,6 +5,7 @@ P = "pykdebugparser.py"
 TP = "traces_parser.py"
 COMP = "return {int(s[0], 16): s[1] for s in map(lambda l: l.split(), codes_text.splitlines())}"
 MUTANTS = [
+    N("C19", "private helper _format_kevent renamed", "pykdebugparser.py", "_format_kevent", "_render_kevent", all_occurrences=True),
     F("C19", "base 16 -> 0", T, COMP, COMP.replace("int(s[0], 16)", "int(s[0], 0)"), "R1"),
     F("C19", "base 16 -> 10", T, COMP, COMP.replace("int(s[0], 16)", "int(s[0])"), "R1"),
     F("C19", "value = last token", T, COMP, COMP.replace(": s[1] for", ": s[-1] for"), "R1"),
